@@ -9,6 +9,7 @@ T = TRUE
 
 def register(E):
     model = model_decorator(E.models)
+    register_maps(E)
 
     def d(st, v):
         return E.deref(st, v)
@@ -308,3 +309,187 @@ def register(E):
         if i is None: raise Inconclusive('index symbolic')
         if i >= len(its): return [(T, Panic('index out of bounds'))]
         return [(T, its[i])]
+
+
+def register_maps(E):
+    """BTreeMap / HashMap as association lists with a concrete number of entries (keys/values may be symbolic).
+    Obj('Map', (kind, entries)) ; entries: tuple of (key, value).  Keys are assumed pairwise distinct by construction
+    (insert replaces on equality).  Iteration order = list order: harnesses that depend on order constrain it."""
+    model = model_decorator(E.models)
+    from .core_models import deep_eq
+
+    def d(st, v):
+        return E.deref(st, v)
+
+    MAPS = r'(?:std::collections::BTreeMap|std::collections::HashMap|std::collections::btree_map::BTreeMap|indexmap::IndexMap|serde_json::Map)'
+
+    def mk(kind, entries):
+        return Obj('Map', (kind, tuple(entries)))
+    E.mk_map = mk
+
+    def key_eq(st, a, b):
+        return z3.simplify(deep_eq(E, st, a, b))
+
+    @model(r'^' + MAPS + r'::(new|with_capacity|default)$|^<' + MAPS + r' as std::default::Default>::default$')
+    def _(E, st, callee, a, m):
+        kind = 'HashMap' if 'HashMap' in callee else 'BTreeMap'
+        return [(T, mk(kind, ()))]
+
+    @model(r'^' + MAPS + r'::(len|is_empty|clear)$')
+    def _(E, st, callee, a, m):
+        mp = d(st, a[0]); op = m.group(1)
+        kind, ents = mp.data
+        if op == 'len': return [(T, I(len(ents), 64))]
+        if op == 'is_empty': return [(T, z3.BoolVal(len(ents) == 0))]
+        def eff(st2): E.store(st2, a[0], mk(kind, ()))
+        return [(T, UNIT, eff)]
+
+    def lookup(st, mp_ref, key, want):
+        """fork over which entry (if any) equals key; want in get/get_mut/contains_key/remove"""
+        mp = d(st, mp_ref)
+        kind, ents = mp.data
+        outs = []
+        none_before = T
+        for i, (k, v) in enumerate(ents):
+            eq = key_eq(st, k, key)
+            cond = z3.simplify(z3.And(none_before, eq))
+            none_before = z3.simplify(z3.And(none_before, z3.Not(eq)))
+            if z3.is_false(cond):
+                continue
+            if want == 'contains_key':
+                outs.append((cond, T))
+            elif want in ('get', 'get_mut'):
+                def eff(st2, i=i):
+                    base = mp_ref
+                    while isinstance(base, Ref):
+                        nxt = E.read_ref(st2, base)
+                        if isinstance(nxt, Ref): base = nxt
+                        else: break
+                    return some(Ref(base.frame, base.local, base.proj + (('mapval', i),)))
+                outs.append((cond, None, eff))
+            elif want == 'remove':
+                def eff(st2, i=i):
+                    E.store(st2, mp_ref, mk(kind, ents[:i] + ents[i + 1:]))
+                outs.append((cond, some(v), eff))
+            elif want == 'remove_entry':
+                def eff(st2, i=i):
+                    E.store(st2, mp_ref, mk(kind, ents[:i] + ents[i + 1:]))
+                outs.append((cond, some(Tup([k, v])), eff))
+        if not z3.is_false(none_before):
+            outs.append((none_before, FALSE if want == 'contains_key' else NONE))
+        return outs
+
+    @model(r'^' + MAPS + r'::(get|get_mut|contains_key|remove|remove_entry)$')
+    def _(E, st, callee, a, m):
+        return lookup(st, a[0], a[1], m.group(1))
+
+    @model(r'^' + MAPS + r'::insert$')
+    def _(E, st, callee, a, m):
+        mp = d(st, a[0])
+        kind, ents = mp.data
+        outs = []
+        none_before = T
+        for i, (k, v) in enumerate(ents):
+            eq = key_eq(st, k, a[1])
+            cond = z3.simplify(z3.And(none_before, eq))
+            none_before = z3.simplify(z3.And(none_before, z3.Not(eq)))
+            if z3.is_false(cond): continue
+            def eff(st2, i=i, k=k):
+                E.store(st2, a[0], mk(kind, ents[:i] + ((k, a[2]),) + ents[i + 1:]))
+            outs.append((cond, some(v), eff))
+        if not z3.is_false(none_before):
+            def eff(st2):
+                E.store(st2, a[0], mk(kind, ents + ((a[1], a[2]),)))
+            outs.append((none_before, NONE, eff))
+        return outs
+
+    @model(r'^' + MAPS + r'::retain$')
+    def _(E, st, callee, a, m):
+        mp = d(st, a[0])
+        kind, ents = mp.data
+        # run the predicate on each entry in order; outcomes multiply
+        acc = [(T, (), st)]
+        panics = []
+        for (k, v) in ents:
+            nxt = []
+            for c0, kept, s0 in acc:
+                kr = E.root_ref(s0, k) if not isinstance(k, Str) else k
+                vr = E.root_ref(s0, v)
+                for cond, o in E.call_value(s0, a[1], [kr, vr]):
+                    cc = z3.simplify(z3.And(c0, cond))
+                    if o.kind != 'ret':
+                        panics.append((cc, Panic(str(o.value)))); continue
+                    v2 = E.read_ref(o.st, vr)
+                    ct, cf = z3.simplify(z3.And(cc, o.value)), z3.simplify(z3.And(cc, z3.Not(o.value)))
+                    if not z3.is_false(ct): nxt.append((ct, kept + ((k, v2),), o.st))
+                    if not z3.is_false(cf): nxt.append((cf, kept, o.st))
+            acc = nxt
+        res = list(panics)
+        for c, kept, s_after in acc:
+            def eff(st2, kept=kept, s_after=s_after):
+                st2.heap = dict(s_after.heap)
+                for fid, fr in s_after.fmap.items():
+                    if fid in st2.fmap: st2.fmap[fid].locs = dict(fr.locs)
+                E.store(st2, a[0], mk(kind, kept))
+            res.append((c, UNIT, eff))
+        return res
+
+    @model(r'^<&?(?:mut )?' + MAPS + r' as std::iter::IntoIterator>::into_iter$|^' + MAPS + r'::(iter|iter_mut|into_iter)$')
+    def _(E, st, callee, a, m):
+        mp = d(st, a[0])
+        kind, ents = mp.data
+        byref = callee.lstrip().startswith('<&') or (m.group(1) in ('iter', 'iter_mut'))
+        if not byref:
+            return [(T, Obj('SeqIter', (tuple(Tup([k, v]) for k, v in ents), 0)))]
+        base = a[0]
+        while isinstance(base, Ref):
+            nxt = E.read_ref(st, base)
+            if isinstance(nxt, Ref): base = nxt
+            else: break
+        items = []
+        for i, (k, v) in enumerate(ents):
+            kr = k if isinstance(k, Str) else Ref(base.frame, base.local, base.proj + (('mapkey', i),))
+            items.append(Tup([kr, Ref(base.frame, base.local, base.proj + (('mapval', i),))]))
+        return [(T, Obj('SeqIter', (tuple(items), 0)))]
+
+    @model(r'^' + MAPS + r'::(keys|values|into_keys|into_values)$')
+    def _(E, st, callee, a, m):
+        mp = d(st, a[0]); kind, ents = mp.data
+        op = m.group(1)
+        if 'keys' in op:
+            return [(T, Obj('SeqIter', (tuple(k for k, v in ents), 0)))]
+        return [(T, Obj('SeqIter', (tuple(v for k, v in ents), 0)))]
+
+    @model(r'^<' + MAPS + r' as std::iter::FromIterator>::from_iter$')
+    def _(E, st, callee, a, m):
+        it = d(st, a[0])
+        if isinstance(it, Seq): items = it.items
+        elif isinstance(it, Obj) and it.kind == 'SeqIter': items = it.data[0][it.data[1]:]
+        elif isinstance(it, Obj) and it.kind == 'Vec': items = it.data
+        else: raise Inconclusive('from_iter of ' + repr(it))
+        kind = 'HashMap' if 'HashMap' in callee else 'BTreeMap'
+        ents = []
+        for t in items:
+            t = d(st, t)
+            ents.append((t.fields[0], t.fields[1]))
+        # assumes distinct keys (harness-built literals)
+        return [(T, mk(kind, ents))]
+
+    # projections into map entries
+    old_project = E.project
+    def project(st, fid, v, p):
+        if p[0] == 'mapval':
+            return v.data[1][p[1]][1]
+        if p[0] == 'mapkey':
+            return v.data[1][p[1]][0]
+        return old_project(st, fid, v, p)
+    E.project = project
+    old_upd = E._upd
+    def _upd(st, fid, v, proj, val):
+        if proj and proj[0][0] == 'mapval':
+            kind, ents = v.data
+            i = proj[0][1]
+            nv = old_upd(st, fid, ents[i][1], proj[1:], val) if len(proj) > 1 else val
+            return mk(kind, ents[:i] + ((ents[i][0], nv),) + ents[i + 1:])
+        return old_upd(st, fid, v, proj, val)
+    E._upd = _upd
